@@ -130,8 +130,6 @@ def gen(tier, seed):
             if not thorough and b in ("3", "37") and kind not in ("HTFC", "HASHHF"):
                 continue
             for n in range(1, N1 + 1, step):
-                if kind == "RPHTFC" and n % int(b) == 1:
-                    continue        # known finding last_bucket_header_only
                 if not thorough and kind in FC and b == "8" and n % 2:
                     continue
                 cases.append(mk_case("sweep1-%s-b%s-n%d" % (kind, b, n), SHORT[:n], kind, [b], "small", "sweep"))
